@@ -311,7 +311,16 @@ func coordinate(r *ev.Run, scenarios []Scenario, finish func(r *ev.Run)) {
 			}
 			o, err := cmd.CombinedOutput()
 			b, rerr := os.ReadFile(out)
-			if rerr != nil || json.Unmarshal(b, &results[ti]) != nil {
+			if (rerr != nil || json.Unmarshal(b, &results[ti]) != nil) && strings.Contains(string(o), "fatal error:") {
+				// the Go runtime itself died in a worker (stack overflow, concurrent map access, ...):
+				// no recover() can catch that, and the process would have died in production too
+				msg := string(o)
+				if i := strings.Index(msg, "fatal error:"); i >= 0 {
+					msg = msg[i:]
+				}
+				first := strings.SplitN(msg, "\n", 2)[0]
+				results[ti] = shardResult{Race: t.bin == raceBin, Violations: []violation{{Sig: "fatal:" + short(strings.TrimPrefix(first, "fatal error: ")), Msg: "a worker process died with a fatal runtime error while exploring its scenarios: " + tail(msg), Scenario: fmt.Sprintf("shard %d", t.shard), Race: t.bin == raceBin}}}
+			} else if rerr != nil || json.Unmarshal(b, &results[ti]) != nil {
 				results[ti].Infra = fmt.Sprintf("worker %s shard %d produced no result (%v): %s", t.bin, t.shard, err, tail(string(o)))
 			}
 		}(ti, t)
